@@ -146,6 +146,11 @@ func Map1(id int) map[int]int {
 	return map[int]int{7: 70}
 }
 
+// Map2 has two entries (keys 1 and 2); loop bodies over it delete the entry they were not given,
+// so the loop runs exactly once whatever the iteration order (Go: an entry removed before it is
+// reached is not produced).
+func Map2(id int) map[int]int { spend(); ev(14, id, 2); return map[int]int{1: 10, 2: 20} }
+
 func Chan(id int) chan int {
 	spend()
 	ev(15, id, 0)
